@@ -5,7 +5,7 @@ from rules import anchors, common
 
 CLAIMED = True
 TECHNIQUE = "static analysis over type-checked MIR: constructor/visibility/mutator inventory of Config, edge-conditioned retention and error pushes in build_lossy, strict/lossy result table, rejection-edge table of check_logger_name with separator constants, panic-site inventory of the install/routing cone (+ compile-fail privacy witnesses in the thorough tier)"
-LEVEL_TEXT = """Static, all-paths decision of: (V7) every getter of the configuration value types returns the field of its name unchanged, every builder setter stores its argument in the field of its name and touches no other, every build() fills each field from the same-named builder field or parameter, unpack() returns the fields in order (30 functions, floor); (V1) the only Config aggregate is in ConfigBuilder::build_lossy, Config/Root/Logger/Appender fields are private and no public function hands out a mutable path to the name lists (root_mut -> &mut Root, whose only public mutator writes the level); (V2) retention filters: an appender is kept only on the true edge of names.insert(name), a root/logger reference only on the true edge of names.contains(ref) against that same set, a logger only if its name was newly inserted AND check_logger_name returned Ok, kept lists are built by push in iteration order; (V3) build returns Ok(config) iff the error list is empty, every filter's failing edge pushes an error carrying the offending item's own name and no error is pushed on a passing edge; (V4) no un-discharged panic site in the install/routing cone (Logger::new*, SharedLogger::new*, init_config*, routing and delivery; cut at dyn Append/Filter) — the appender_map[..] lookups are justified by V1+V2; (V5) the separator constants of check_logger_name agree with the routing layer's; (V6) check_logger_name rejects exactly on: empty name, a colon streak above len(SEP), a non-colon after a streak that is >0 and != len(SEP), end of input inside a streak. The exact language of names and completeness of error reporting for every input are not decided."""
+LEVEL_TEXT = """Static, all-paths decision of: (V7) every getter of the configuration value types returns the field of its name unchanged, every builder setter stores its argument in the field of its name and touches no other, every build() fills each field from the same-named builder field or parameter, unpack() returns the fields in order (30 functions, floor); (V1) the only Config aggregate is in ConfigBuilder::build_lossy, Config/Root/Logger/Appender fields are private and no public function hands out a mutable path to the name lists (root_mut -> &mut Root, whose only public mutator writes the level); (V2) retention filters: an appender is kept only on the true edge of names.insert(name), a root/logger reference only on the true edge of names.contains(ref) against that same set, a logger only if its name was newly inserted AND check_logger_name returned Ok, kept lists are built by push in iteration order; (V3) build returns Ok(config) iff the error list is empty, every filter's failing edge pushes an error carrying the offending item's own name and no error is pushed on a passing edge; (V4) no un-discharged panic site in the install/routing cone (Logger::new*, SharedLogger::new*, init_config*, routing and delivery; cut at dyn Append/Filter) — the appender_map[..] lookups are justified by V1+V2; (V5) the separator constants of check_logger_name agree with the routing layer's; (V6) check_logger_name rejects exactly on: empty name, a colon streak above len(SEP), a non-colon after a streak that is >0 and != len(SEP), end of input inside a streak. The exact language of names and completeness of error reporting for every input are not decided. (V9) build_lossy stores to no field of a kept item except the filtered appenders lists; (V10) the install sorts by a total order (C01.R2)."""
 LEVEL_NOTE = "Trusted: rustc MIR/callee resolution; HashSet/Vec semantics; Rust privacy (witnessed by compile-fail doctests in the thorough tier)."
 EXPLANATION = """Decided: V1 sole constructor/private fields/no mutable path, V2 retention filters, V3 strictness and error payloads, V4 install cannot panic, V5 separator agreement, V6 rejection edges of check_logger_name. Undecided: the exact accepted name language for every string; that every offending item is reported (a logger rejected for its name does not get its dangling references reported)."""
 DECIDED = ["V1", "V2", "V3", "V4", "V5", "V6", "V7 accessors/setters/build of Config, Root, Logger, Appender and their builders are faithful"]
@@ -43,6 +43,27 @@ def name_checker(p):
         raise AnchorMissing("expected one name-validation call in build_lossy, found %s" % [c.callee for c in cands])
     return cands[0]
 
+
+
+def rule_kept_as_given(ctx, p, cfg, rid="V9"):
+    """What build_lossy keeps, it keeps as it was given: of an appender, a logger or the root it rewrites nothing but the
+    `appenders` reference lists it has just filtered - no name, level, additivity, sink or filter chain is replaced or
+    edited on the way into the Config."""
+    with ctx.rule(rid, "kept items are kept as given", cfg) as r:
+        f = p.fn_loops(BUILD_LOSSY)
+        stores, bad = 0, []
+        for b, i, st in f.assigns():
+            for e in st["lhs"]["p"]:
+                if isinstance(e, dict) and "f" in e and e.get("adt") in (ROOT, LOGGER, APPENDER):
+                    stores += 1
+                    if not (e["f"] == "appenders" and e["adt"] in (ROOT, LOGGER)):
+                        bad.append("%s.%s" % (e["adt"].rsplit("::", 1)[-1], e["f"]))
+        r.floor("filtered-lists-stored", stores, 2)
+        r.require(not bad, "no-field-of-a-kept-item-rewritten", fn=f, detail="field stores into Root/Logger/Appender in build_lossy: %d, all to the filtered `appenders` lists" % stores,
+                  fail_detail="build_lossy rewrites %s of an item it keeps: the configuration installed is not the one that was built (a name that no longer matches its targets, a sink behind another definition's filters)" % sorted(set(bad)))
+        muts = [c for c in f.calls() if any(str(t).startswith(("&mut " + ROOT, "&mut " + LOGGER, "&mut " + APPENDER)) for t in (c.t.get("arg_tys") or []))]
+        r.require(not muts, "no-kept-item-handed-out-mutably", fn=f, site=(muts[0].at if muts else None), detail="no call takes a Root/Logger/Appender by `&mut`",
+                  fail_detail="build_lossy hands an item it keeps to %s by `&mut`" % (muts[0].callee if muts else ""))
 
 
 def rule_retention(ctx, p, cfg, rid="V2"):
@@ -160,8 +181,11 @@ def run_cfg(ctx, p, cfg):
                           detail="signature %s" % sig[-120:])
 
     rule_retention(ctx, p, cfg, "V2")
+    rule_kept_as_given(ctx, p, cfg, "V9")
     from rules import c15
-    c15.rule_one_snapshot(ctx, p, cfg, "V8")   # "logged through without panicking": the positions a node holds index the appender table of the same snapshot
+    c15.rule_one_snapshot(ctx, p, cfg, "V8")
+    from rules import c01
+    c01.rule_ancestors_first(ctx, p, cfg, "V10")   # "installed without panicking": the install sorts the loggers by a total order (a key, or a comparator that is `cmp` of two keys); std's sort panics on an inconsistent one (C01.R2 re-evaluated)   # "logged through without panicking": the positions a node holds index the appender table of the same snapshot
 
     with ctx.rule("V3", "strictness and error payloads", cfg) as r:
         b = p.fn(BUILD)
